@@ -46,6 +46,51 @@ def witnesses():
     return w
 
 
+def iter_history(rng):
+    """遍历 after a history: the collection was copied, one of the two was changed (keys removed / added, items shifted or
+    replaced), then each is iterated with both loop variables displayed; some passes take 继续循环 / 结束循环"""
+    keys = rng.sample(["a", "b", "c", "d", "e", "甲", "乙"], rng.randrange(2, 6))
+    is_dict = rng.random() < 0.6
+    if is_dict:
+        body = [Decl([(False, ["A"], Map([(k, Num(i + 1)) for i, k in enumerate(keys)]))])]
+    else:
+        body = [Decl([(False, ["A"], Arr([Num(10 * (i + 1)) for i in range(len(keys))]))])]
+    body.append(Decl([(False, ["B"], Var("A"))]) if rng.random() < 0.7 else Decl([(False, ["B", "C"], Var("A"))]))
+    for _ in range(rng.randrange(1, 4)):
+        tgt = Var(rng.choice(["A", "B"]))
+        if is_dict:
+            k = rng.randrange(3)
+            if k == 0:
+                body.append(ExprS(Method(tgt, [("移除", [Str(rng.choice(keys))])])))
+            elif k == 1:
+                body.append(ExprS(Method(tgt, [("写入", [Str(rng.choice(keys + ["新"])), Num(rng.randrange(50, 99))])])))
+            else:
+                body.append(ExprS(AssignIndex(tgt, Str(rng.choice(keys + ["z"])), Num(rng.randrange(50, 99)))))
+        else:
+            k = rng.randrange(4)
+            if k == 0:
+                body.append(ExprS(Method(tgt, [(rng.choice(["左移", "右移"]), [])])))
+            elif k == 1:
+                body.append(ExprS(Method(tgt, [(rng.choice(["后增", "前增"]), [Num(rng.randrange(50, 99))])])))
+            elif k == 2:
+                body.append(ExprS(AssignIndex(tgt, Num(1), Num(rng.randrange(50, 99)))))
+            else:
+                body.append(ExprS(Method(tgt, [("交换", [Num(1), Num(2)])])))
+    for name in ["A", "B"]:
+        loop = [Display(Var("K"), Var("V"))]
+        if rng.random() < 0.5:
+            which = Str(rng.choice(keys)) if is_dict else Num(rng.randrange(1, 4))
+            loop.append(Branch(Logic("eq", Var("K"), which), [rng.choice([Continue(), Break()])]))
+            loop.append(Display(Str("rest"), Var("K")))
+        body.append(Display(Str(name)))
+        body.append(Iter(Var(name), ["K", "V"], loop))
+    body.append(Return(Arr([Var("A"), Var("B")])))
+    return ([], body, [])
+
+
 def run(chk, replay=None):
-    semprop.run_property(chk, "C02", "c02", PROFILES, 140, 1500, replay=replay, extra_programs=witnesses(),
+    extra = witnesses()
+    if replay is None:
+        extra += [(iter_history(chk.rng), None, "iteration-history") for _ in range(30 if chk.tier == "quick" else 400)]
+    semprop.run_property(chk, "C02", "c02", PROFILES, 120, 1500, replay=replay, extra_programs=extra,
                          what="control flow differs from the documented semantics")
